@@ -134,7 +134,7 @@ def run(full=False):
                 results.append((f"spec mutant applies: {what}", False))
                 continue
             open(os.path.join(d, fname), "w").write(src.replace(old_, new_))
-            r = subprocess.run(["java", "-Xss1g", "-XX:+UseParallelGC", "-cp", hvlib.TLA_CP, "tlc2.TLC", "-workers", "8", "-metadir", os.path.join(ctx.scratch, "specmut-meta"),
+            r = subprocess.run(["java", "-Xss1g", "-XX:+UseParallelGC", "-Djava.io.tmpdir=" + ctx.scratch, "-cp", hvlib.TLA_CP, "tlc2.TLC", "-workers", "8", "-metadir", os.path.join(ctx.scratch, "specmut-meta"),
                                 "-cleanup", "-noGenerateSpecTE", "-config", cfg, mod], cwd=d, stdout=subprocess.PIPE, stderr=subprocess.STDOUT, text=True, timeout=900)
             refuted = "is violated" in r.stdout or "Error:" in r.stdout
             results.append((f"mutated specification refuted by TLC: {what}", refuted))
